@@ -1617,7 +1617,7 @@ def run(ctx):
         ctx.hist['oracle-failure:' + f['signature']] -= 1
     for k, v in hist.items():
         ctx.count(k, v)
-    results += run_cases(ctx, 'c06', ctx.n(10, 400), ctx.n(8, 12))
+    results += run_cases(ctx, 'c06', ctx.n(15, 400), ctx.n(8, 12))
     for r in results:
         ctx.case(r.canon, nontrivial=nontrivial(r.stats, r.n_wire, r.n_events),
                  sample={'txs': r.txs, 'schedule': r.case['schedule'][:12], 'stats': r.stats})
